@@ -46,12 +46,9 @@ def erased_pred(op, o, cx, cy, cols, lines):
                      how == 2, how == 3)
 
     def may(y, x):
-        if not pending or y != cy or x != cols - 1:
-            return F
-        if op == 'erase_characters':
-            return T
-        how = z3.If(is_some, n, z3.BitVecVal(0, 32))
-        return how == 0
+        # With the cursor in the pending-wrap column (x == columns) "from the cursor" is an empty range:
+        # EL 0 / ED 0 / ECH erase nothing on that row (the documented pyte behaviour).
+        return F
 
     return must, may
 
